@@ -193,7 +193,7 @@ def snapshot():
     }
 
 
-def restore(s):
+def restore(s, keep_module_confs=False):
     from beartype.claw._clawstate import claw_state
     from beartype.claw._package.clawpkgtrie import PackagesTrieBlacklisted
     dict.clear(PackagesTrieBlacklisted)        # the shared leaf sentinel must be empty (an operation may have mutated it)
@@ -201,8 +201,9 @@ def restore(s):
     claw_state.packages_trie_blacklist = s['copy'](s['black'])
     claw_state.beartype_path_hook = s['hook']
     sys.path_hooks[:] = s['path_hooks']
-    claw_state.module_name_to_beartype_conf.clear()
-    claw_state.module_name_to_beartype_conf.update(s['modconf'])
+    if not keep_module_confs:
+        claw_state.module_name_to_beartype_conf.clear()
+        claw_state.module_name_to_beartype_conf.update(s['modconf'])
     sys.path_importer_cache.clear()
 
 
